@@ -1917,6 +1917,9 @@ def shrink_failure(prop: str, f: dict) -> dict:
             if recheck(prop, cand):
                 cur, changed = cand, True
                 break
+    if cur.get("input") != f.get("input"):
+        # `what` was written for the input as found; the shortened input still fails one of the property's oracles
+        cur["found_on_input"] = f["input"]
     return cur
 
 
